@@ -76,7 +76,24 @@ func (g *gen) cond() string {
 	if g.s.Directives["trace"] != nil && g.t.Bool(1, 6, "trace?") {
 		return " @trace"
 	}
-	switch g.t.Choose(8, "cond") {
+	switch g.t.Choose(9, "cond") {
+	case 8:
+		// both directives on one selection: it is included only if @skip says false AND
+		// @include says true
+		sk := []string{"true", "false", "$t", "$f"}[g.t.Choose(4, "skip-if")]
+		in := []string{"true", "false", "$t", "$f"}[g.t.Choose(4, "include-if")]
+		for _, x := range []string{sk, in} {
+			if x == "$t" {
+				g.useVar["t"] = true
+			}
+			if x == "$f" {
+				g.useVar["f"] = true
+			}
+		}
+		if g.t.Bool(1, 2, "include-first") {
+			return " @include(if:" + in + ") @skip(if:" + sk + ")"
+		}
+		return " @skip(if:" + sk + ") @include(if:" + in + ")"
 	case 1:
 		return " @include(if:true)"
 	case 2:
